@@ -162,7 +162,7 @@ def run(chk, binary):
             op, closed = rng.choice(OPEN_MODES)
             if rng.random() < 0.5:
                 # what a closed session could still reach into: backward word motions (the ctrl-w bound), dot, undo, put
-                nxt = rng.choice(["b", "B", "db", "dB", "cBé<esc>", "ge", ".", "2.", "j.", "u", "p", "i<c-w>x<esc>", "x", "P"])
+                nxt = rng.choice(["b", "B", "db", "dB", "cBé<esc>", "ge", ".", "2.", "j.", "u", "p", "i<c-w>x<esc>", "x", "P", ".u", "xu", "rZu"])
             a_args, b_args = [pre + op, nxt], [pre + closed, nxt]
             kind = "open_modes"
         reqs.append({"op": "keys", "text": text, "cursor": 0, "keys": b_args[:1], "keep_mode": False})
